@@ -1,6 +1,7 @@
 package main
 
 import (
+	"context"
 	"errors"
 	"fmt"
 	"io"
@@ -17,7 +18,7 @@ import (
 func init() {
 	register("conn.recv", func(tier string) []Variant {
 		var vs []Variant
-		mixes := []string{"next5", "peek-skip-next", "readbinary-byte", "slice", "read7", "until", "next1"}
+		mixes := []string{"next5", "peek-skip-next", "readbinary-byte", "slice", "read7", "until", "next1", "handler4"}
 		for _, chunks := range []string{"12", "5-7", "4-4-4", "1-11"} {
 			for _, mix := range mixes {
 				for _, short := range []bool{false, true} {
@@ -120,6 +121,32 @@ func recvScenario(chunks, mix string, short bool) *vsched.Scenario {
 			vsyscall.HClose(b)
 			vsched.LogEvent("peer:closed")
 		})
+		if mix == "handler4" {
+			// the receiver is an OnRequest handler that takes one frame (<= 4 bytes) per invocation
+			c.AddCloseCallback(func(netpoll.Connection) error { vsched.LogEvent("closecb"); return nil })
+			c.SetOnRequest(func(ctx context.Context, conn netpoll.Connection) error {
+				r := conn.Reader()
+				n := r.Len()
+				if n > 4 {
+					n = 4
+				}
+				if n == 0 {
+					return nil
+				}
+				p, err := r.Next(n)
+				if err != nil {
+					if firstErr == nil {
+						firstErr, errAt = err, len(got)
+					}
+					conn.Close()
+					return nil
+				}
+				got = append(got, p...)
+				r.Release()
+				return nil
+			})
+			return
+		}
 		vsched.Go("reader", func() {
 			r := c.Reader()
 			fail := func(err error) bool {
@@ -230,6 +257,14 @@ func recvScenario(chunks, mix string, short bool) *vsched.Scenario {
 		}
 		// every byte sent before the peer closed is readable before end-of-stream is reported
 		rem := total - len(got)
+		if mix == "handler4" {
+			if firstErr != nil {
+				add("recv-error reader="+mix, fmt.Sprintf("the handler's Next failed with %v after %d bytes", firstErr, len(got)))
+			} else if rem > 0 {
+				add("handler-stream-truncated", fmt.Sprintf("the peer sent %d bytes and closed; the OnRequest handler was offered only the first %d before the connection was torn down (closecb logged: %v)", total, len(got), logIdx{ex}.first("closecb") >= 0))
+			}
+			return vs
+		}
 		if firstErr != nil && (errors.Is(firstErr, netpoll.ErrEOF) || firstErr == io.EOF) {
 			unit := map[string]int{"next5": 4, "next1": 1, "peek-skip-next": 3, "readbinary-byte": 3, "slice": 4, "read7": 1, "until": 1}[mix]
 			if mix == "peek-skip-next" {
